@@ -243,6 +243,10 @@ func gosymCall(fr *frame, name string, args []value) value {
 	case "gosym_Quiesce":
 		Sched.quiesce()
 		return nil
+	case "gosym_RecvSeq": // number of unbuffered-channel receives completed so far
+		return recvSeq
+	case "gosym_LastSendSeq": // receive sequence number at which this goroutine's last unbuffered send was taken
+		return Sched.cur.lastSendSeq
 	case "gosym_Log":
 		if Cfg.Verbose {
 			var parts []string
